@@ -2,6 +2,8 @@
 #
 # (1) variant obligations at the head of every `while` loop of every decoder (pyvc.loops): unbounded in the buffer
 #     length and contents;
+# (1b) for every `for ... in range(<non-constant>)` of a decoder: the length of the range is at most 2*len(buffer)+8
+#     on every path when the range is built (RangeLoops; unbounded in the buffer length);
 # (2) an inventory of all loops of the decoders, found by an AST scan on every run: every `while` is in the stride
 #     schema and has a variant unit, every `for` iterates over a finite sequence fixed before the loop, the
 #     decoders do not recurse, every layout mask is positive (the mask loops of the codec terminate);
@@ -114,6 +116,7 @@ class LoopVariant(Unit):
             return {"reached": False}
         from pyvc.loops import LoopSummarized
 
+        X.ctx.range_bound = 2 * V.buf_len(a.data) + 8  # a `for ... in range(<symbolic>)` before the target loop
         try:
             if kind == "class":
                 X.call(fn, cls, *args, **kw)
@@ -158,6 +161,73 @@ class LoopVariant(Unit):
     def canaries(self, case, a, out, X):
         if out.kind == "return" and out.value.get("reached") and out.value.get("new_len") is not None:
             yield "canary:buffer-length-unchanged-by-an-iteration", V.compare("==", out.value["new_len"], out.value["old_len"])
+
+
+class RangeLoops(Unit):
+    """every `for ... in range(...)` of a decoder: when the range is built, its length is at most 2*len(buffer)+8 on
+    every path (any buffer length, any contents) -- or does not depend on device data at all.  `while` loops met on
+    the way are replaced by their summaries (they have their own variant obligations)."""
+
+    name = "termination/range-loops"
+    properties = ("C11",)
+    witness = False
+
+    def _targets(self):
+        out = []
+        for name, cls, fn, kind in decoder_functions():
+            node = fn_node(fn)
+            if any(isinstance(n, ast.For) and isinstance(n.iter, ast.Call) and isinstance(n.iter.func, ast.Name) and n.iter.func.id == "range"
+                   and not all(isinstance(x, ast.Constant) for x in n.iter.args) for n in ast.walk(node)):
+                for extra in extra_args(name, fn):
+                    out.append((name, extra))
+        return out
+
+    def functions(self):
+        names = {n for n, _ in self._targets()}
+        return [fn for name, _, fn, _ in decoder_functions() if name in names]
+
+    def cases(self, tier):
+        return [{"decoder": n, "extra": e} for n, e in self._targets()] or [{"decoder": None, "extra": {}}]
+
+    def case_id(self, case):
+        return "%s%s" % (case["decoder"], "".join(",%s=%s" % kv for kv in sorted(case["extra"].items())))
+
+    _fn = LoopVariant._fn
+
+    def inputs(self, case):
+        return {"data": Buf(maxlen=1 << 24)} if case["decoder"] else {}
+
+    def interp_config(self, case):
+        if not case["decoder"]:
+            return {}
+        from pyvc import loops
+        from .converter import l0_contracts
+
+        cls, fn, kind = self._fn(case)
+        return {"loop_hook": loops.make_hook(fn, None), "for_hook": loops.make_for_hook(fn), "contracts": l0_contracts()}
+
+    def run(self, X, case, a):
+        if not case["decoder"] or not X.symbolic:
+            return None
+        cls, fn, kind = self._fn(case)
+        args = [a.data]
+        kw = dict(case["extra"])
+        if "_type" in kw:
+            args = [kw.pop("_type"), a.data]
+        X.ctx.range_bound = 2 * V.buf_len(a.data) + 8
+        if kind == "class":
+            args = [cls] + args
+        X.call(fn, *args, **kw)
+        return None
+
+    def ensures(self, case, a, out, X):
+        if not case["decoder"]:
+            yield "C11", "no-decoder-loops-over-a-range-of-non-constant-length", True
+            return
+        yield "C11", "range-loop-length-at-most-2*len(buffer)+8-on-every-path", out.kind != "loopbound"
+
+    def replay_redirect(self, case, tier):
+        return LoopVariant.replay_redirect(self, case, tier)
 
 
 class LoopInventory(Unit):
@@ -288,7 +358,7 @@ class BoundedTermination(Unit):
         out = []
         for name, cls, fn, kind in decoder_functions():
             node = fn_node(fn)
-            if not any(isinstance(n, ast.While) for n in ast.walk(node)):
+            if not any(isinstance(n, (ast.While, ast.For)) for n in ast.walk(node)):
                 continue
             for extra in extra_args(name, fn):
                 for n in lens:
@@ -342,5 +412,6 @@ def replay_native_budget(unit, case, inputs):
 
 
 register(LoopVariant())
+register(RangeLoops())
 register(LoopInventory())
 register(BoundedTermination())
